@@ -141,6 +141,31 @@ type specSub struct {
 type spec struct {
 	subs     []specSub
 	retained map[string]specMsg
+	// what the implementation is known to do with empty levels (finding F7): subscriptions and retained
+	// messages keyed by the levels the splitter produces, so different strings can share one entry
+	qsubs map[string][]specSub // quirk path -> entries (subscriber, last filter string, qos)
+	qret  map[string]specMsgT
+}
+
+type specMsgT struct {
+	topic string
+	m     specMsg
+}
+
+func qpath(t []byte) string { return strings.Join(quirkLevels(t), "\x00") }
+
+func (sp *spec) qsubscribers(topic []byte, q int) []pair {
+	var res []pair
+	tl := quirkLevels(topic)
+	for path, es := range sp.qsubs {
+		if quirkMatch(strings.Split(path, "\x00"), tl) || (path == "" && len(tl) == 0) {
+			for _, e := range es {
+				res = append(res, pair{e.sub, min(q, e.qos)})
+			}
+		}
+	}
+	sortPairs(res)
+	return res
 }
 
 type specMsg struct {
@@ -234,16 +259,12 @@ func samePairs(a, b []pair) bool {
 
 func (rn *runner) run(ops []hx.Group) {
 	mt := topics.NewMemProvider()
-	sp := &spec{retained: map[string]specMsg{}}
+	sp := &spec{retained: map[string]specMsg{}, qsubs: map[string][]specSub{}, qret: map[string]specMsgT{}}
 	caseNo := rn.out.N
 	var obs []hx.Group
 	sawEmpty := false // an empty level occurred in this history: failures fall into the known empty-level finding
 	oracle := func(format string, a ...interface{}) {
-		msg := fmt.Sprintf(format, a...)
-		if sawEmpty && !strings.HasPrefix(msg, "empty-level") {
-			msg = "empty-level: " + strings.TrimPrefix(msg, "MATCH: ")
-		}
-		rn.out.Oracle(caseNo, "%s", msg)
+		rn.out.Oracle(caseNo, "%s", fmt.Sprintf(format, a...))
 	}
 	for _, op := range ops {
 		if op[0] >= 1 && op[0] <= 5 {
@@ -287,6 +308,16 @@ func (rn *runner) run(ops []hx.Group) {
 				if !found {
 					sp.subs = append(sp.subs, specSub{s, string(topic), int(g)})
 				}
+				qp := qpath(topic)
+				qfound := false
+				for i := range sp.qsubs[qp] {
+					if sp.qsubs[qp][i].sub == s {
+						sp.qsubs[qp][i].qos, qfound = int(g), true
+					}
+				}
+				if !qfound {
+					sp.qsubs[qp] = append(sp.qsubs[qp], specSub{s, string(topic), int(g)})
+				}
 			}
 		case 2: // Unsubscribe s topic
 			s, topic := int(op[1]), toBytes(op, 2)
@@ -306,16 +337,30 @@ func (rn *runner) run(ops []hx.Group) {
 				}
 				keep = append(keep, x)
 			}
-			if s != 0 && !hasSys(topic) && !hasEmptyLevel(topic) {
-				if had && err != nil {
-					oracle("Unsubscribe(%q, sub %d) failed although the subscription exists: %v", topic, s, err)
+			qp := qpath(topic)
+			hadQ := false
+			var qkeep []specSub
+			for _, x := range sp.qsubs[qp] {
+				if s == 0 || x.sub == s {
+					hadQ = true
+					continue
 				}
-				if !had && err == nil && specValidFilter(topic) {
-					oracle("Unsubscribe(%q, sub %d) succeeded although no such subscription exists", topic, s)
+				qkeep = append(qkeep, x)
+			}
+			if s != 0 && !hasSys(topic) && specValidFilter(topic) && had != (err == nil) {
+				tag := "MATCH"
+				if hadQ == (err == nil) && sawEmpty {
+					tag = "empty-level"
 				}
+				oracle("%s: Unsubscribe(%q, sub %d) returned %v, the subscription held=%v", tag, topic, s, err, had)
 			}
 			if err == nil {
 				sp.subs = keep
+				if len(qkeep) == 0 {
+					delete(sp.qsubs, qp)
+				} else {
+					sp.qsubs[qp] = qkeep
+				}
 			}
 		case 3: // Subscribers q topic
 			q, topic := int(op[1]), toBytes(op, 2)
@@ -342,7 +387,7 @@ func (rn *runner) run(ops []hx.Group) {
 					want := sp.subscribers(topic, q, false)
 					if !samePairs(got, want) {
 						tag := "MATCH"
-						if samePairs(got, sp.subscribers(topic, q, true)) {
+						if sawEmpty && samePairs(got, sp.qsubscribers(topic, q)) {
 							tag = "empty-level" // explained exactly by the known treatment of empty levels
 						}
 						oracle("%s: Subscribers(%q, qos %d) = %v, section 4.7 over the held subscriptions %v gives %v", tag, topic, q, got, sp.subs, want)
@@ -378,12 +423,23 @@ func (rn *runner) run(ops []hx.Group) {
 			}
 			t := string(toBytes(op, 3)[:tl])
 			if !hasSys([]byte(t)) {
+				qp := qpath([]byte(t))
 				if len(payload) == 0 {
-					if _, had := sp.retained[t]; had && err != nil && !hasEmptyLevel([]byte(t)) {
-						oracle("clearing the retained message of %q failed: %v", t, err)
+					_, had := sp.retained[t]
+					_, hadQ := sp.qret[qp]
+					if had && err != nil {
+						tag := "MATCH"
+						if !hadQ && sawEmpty {
+							tag = "empty-level"
+						}
+						oracle("%s: clearing the retained message of %q failed: %v", tag, t, err)
 					}
 					delete(sp.retained, t)
+					if err == nil {
+						delete(sp.qret, qp)
+					}
 				} else {
+					sp.qret[qp] = specMsgT{t, specMsg{string(toBytes(op, 3)[tl:]), q}}
 					if err != nil {
 						oracle("Retain(%q) failed: %v", t, err)
 					}
@@ -428,13 +484,15 @@ func (rn *runner) run(ops []hx.Group) {
 						if fmatch(split(filter), split([]byte(t))) {
 							want[t] = m
 						}
-						if quirkMatchR(quirkLevels(filter), quirkLevels([]byte(t))) {
-							wantQ[t] = m
+					}
+					for path, tm := range sp.qret {
+						if quirkMatchR(quirkLevels(filter), strings.Split(path, "\x00")) {
+							wantQ[tm.topic] = tm.m
 						}
 					}
 					if !sameMsgs(got, want) {
 						tag := "MATCH"
-						if sameMsgs(got, wantQ) {
+						if sawEmpty && sameMsgs(got, wantQ) {
 							tag = "empty-level"
 						}
 						oracle("%s: Retained(%q) = %v, section 4.7 over the stored messages %v gives %v", tag, filter, got, sp.retained, want)
@@ -517,6 +575,46 @@ func genTopic(r *hx.Rng, filter bool) []byte {
 }
 
 func gb(prefix []int64, b []byte) hx.Group { return hx.GB(prefix, b) }
+
+// several subscribers on one filter with different QoS, removed in a random order, queried in between
+func genHotNode(r *hx.Rng) []hx.Group {
+	var ops []hx.Group
+	f := genTopic(r, true)
+	for hasEmptyLevel(f) || !specValidFilter(f) || hasSys(f) {
+		f = genTopic(r, true)
+	}
+	t := []byte(strings.NewReplacer("+", "k", "#", "k").Replace(string(f)))
+	n := 3 + r.Intn(5)
+	var live []int
+	for i := 1; i <= n; i++ {
+		ops = append(ops, gb([]int64{1, int64(r.Intn(3)), int64(i)}, f))
+		live = append(live, i)
+	}
+	ops = append(ops, gb([]int64{3, 2}, t))
+	for len(live) > 0 {
+		j := r.Intn(len(live))
+		ops = append(ops, gb([]int64{2, int64(live[j])}, f))
+		live = append(live[:j], live[j+1:]...)
+		ops = append(ops, gb([]int64{3, int64(1 + r.Intn(2))}, t))
+		if r.Chance(30) {
+			k := 1 + r.Intn(n)
+			ops = append(ops, gb([]int64{1, int64(r.Intn(3)), int64(k)}, f))
+			present := false
+			for _, x := range live {
+				if x == k {
+					present = true
+				}
+			}
+			if !present {
+				live = append(live, k)
+			}
+		}
+		if len(ops) > 60 {
+			break
+		}
+	}
+	return ops
+}
 
 func genHistory(r *hx.Rng, n int) []hx.Group {
 	var ops []hx.Group
@@ -654,6 +752,10 @@ func main() {
 	for i := 0; i < nHist; i++ {
 		rn.run(genHistory(r, 10+r.Intn(50)))
 		rn.count("history")
+		if i%4 == 0 {
+			rn.run(genHotNode(r))
+			rn.count("hot_node")
+		}
 	}
 	rn.finish(outPrefix)
 }
